@@ -63,7 +63,14 @@ def run_case(case):
     try:
         if mode == 'jac':
             f = multi.vector_fun(rec, x0)
-            val = nd.Jacobian(f, method=method, order=order)(np.array(x0))
+            xr = np.array(x0)
+            xr.flags.writeable = False              # the caller's x is never written to
+            J = nd.Jacobian(f, method=method, order=order)
+            val = J(xr)
+            keep = np.array(val, copy=True)
+            J(np.array(x0) * 1.5 + 0.25)            # a later call of the same object elsewhere
+            if not np.array_equal(np.asarray(val), keep, equal_nan=True):
+                return ('raise', 'ResultOverwritten: the array returned by the first call was changed by a later call of the same object')
             return ('ok', np.asarray(val).tolist(), list(np.shape(val)))
         if mode == 'jac-list':      # x given as a python list; result must be the same
             f = multi.vector_fun(rec, x0)
